@@ -137,14 +137,18 @@ SameAddressSameId(recs, a, r) ==
         ELSE r.ret = 0
 
 \* frame condition: only the named fields of the matched record change
-Touched(a) == IF a.op \in {"match_incoming", "save", "patch"} THEN {kv.k : kv \in Range(a.patch)}
-              ELSE IF a.op \in {"attr_write", "delete_attr"} THEN {a.key} ELSE {}
+\* a patch names built-in members AND dynamic attributes (a member name always means the member); attr / delete_attr name
+\* a dynamic attribute only - also when its key happens to be spelt like a member ("address_in" kept as a note of the
+\* application): the member of that name is another thing and stays
+PatchNames(a) == IF a.op \in {"match_incoming", "save", "patch"} THEN {kv.k : kv \in Range(a.patch)} ELSE {}
+TouchedMembers(a) == PatchNames(a) \cap Builtin
+Touched(a) == IF a.op \in {"attr_write", "delete_attr"} THEN {a.key} ELSE PatchNames(a) \ Builtin
 
 Frame(recs, a, r, keys) ==
   \A i \in 1..Len(recs) :
      LET old == recs[i]  new == r.recs[i] IN
      /\ (new # old => r.out = "ok" /\ new.id = r.ret)             \* only the matched record
-     /\ \A k \in Builtin : new.f[k] # old.f[k] => k \in Touched(a)
+     /\ \A k \in Builtin : new.f[k] # old.f[k] => k \in TouchedMembers(a)
      /\ \A k \in keys : new.attrs[k] # old.attrs[k] => k \in Touched(a)
 
 \* a patch really sets the named fields (last writer wins, None ignored for dynamic keys)
